@@ -12,7 +12,7 @@ type variation struct {
 	schemeCase, hostCase, esc, nested, port, dots, tabnl, space, emptyFrag int
 }
 
-var nVariants = [9]int{2, 2, 8, 4, 2, 6, 4, 3, 1}
+var nVariants = [9]int{2, 2, 8, 4, 2, 6, 7, 3, 1}
 
 func (v *variation) set(kind, variant int) {
 	switch kind {
@@ -146,7 +146,16 @@ func (b *webBase) build(si int, v *variation) string {
 	} else if v.emptyFrag == 1 {
 		frag = "#"
 	}
-	s := sc + "://" + cred + host + port + path + query + frag
+	delim := "://"
+	switch v.tabnl {
+	case 5: // inside the scheme delimiter
+		delim = ":\t//"
+	case 6:
+		delim = ":/\n/"
+	case 7: // between the delimiter and the authority
+		delim = "://\r"
+	}
+	s := sc + delim + cred + host + port + path + query + frag
 	switch v.space {
 	case 1:
 		s = " " + s
